@@ -140,8 +140,28 @@ FALSY = [e_int(0), e_bytes(b''), e_map([]), b'\x9f\xff']
 def rand_datum(rng):
     """(CBOR bytes, form): form 'prim' = the driver hands the datum over as the plain Python value (int, bytes, dict,
     IndefiniteList / list, RawPlutusData around a constructor), 'raw' = wrapped in RawCBOR (always a truthy object)"""
+    if rng.random() < 0.12:
+        return foreign_pd(rng), 'raw'
     b = rng.choice(FALSY) if rng.random() < 0.25 else rand_pd(rng)
     return b, datum_form(rng, b)
+
+
+def foreign_pd(rng):
+    """Plutus data in a wire form pycardano itself would not emit for that content, as other tools and the chain have it (what a
+    backend returns as RawCBOR): byte strings over 64 bytes in 64-byte chunks, definite-length non-empty lists (indefinite-length maps
+    and non-shortest integers are left out: the Coq reader Cbor.dec, whose round trip is proved, does not read them).  Such a datum is only ever handed over verbatim (form 'raw'); its hash is the hash of
+    these bytes."""
+    def chunked(n):
+        body = rng.randbytes(n)
+        return b'\x5f' + b''.join(e_bytes(body[i:i + 64]) for i in range(0, n, 64)) + b'\xff'
+    k = rng.randint(0, 3)
+    if k == 0:
+        return chunked(rng.choice([65, 100, 128, 129, 200]))
+    if k == 1:
+        return e_list([e_int(1), rand_pd(rng, 1), e_int(3)], indef=False)
+    if k == 2:
+        return head(6, 121 + rng.randint(0, 6)) + e_list([chunked(70), e_int(rng.randint(0, 99))])
+    return head(6, 122) + e_list([e_int(7), e_map([(e_int(1), chunked(65))])], indef=False)
 
 
 def datum_form(rng, b):
